@@ -355,5 +355,10 @@ def run(model, rep, tier):
     rep.rule('R09.9', 'every name loaded in sample.py, points.py, pointsseq.py and element.py resolves (symtable)')
     from rules import names as _names
     _names.check(model, rep, 'R09.9', ('sample', 'points', 'pointsseq', 'element'), 300)
+    from rules import round4 as _r4
+    rep.rule('R09.10', 'all three components of slice.indices() are used (pointsseq, sample); _Zip.getindex reads the stored point numbers; composite scheme strings are split at the first *')
+    _r4.check_slice_components(model, rep, 'R09.10', ('pointsseq', 'sample', 'points'))
+    _r4.check_zip_index(model, rep, 'R09.10')
+    _r4.check_scheme_split(model, rep, 'R09.10')
     rep.require('R09.1', 20)
     rep.require('R09.2', 5)
